@@ -224,17 +224,17 @@ namespace fastscapelib
 
         neighbors_indices_type& get(const std::size_t& /*idx*/)
         {
-            return m_node_neighbors;
+            return storage();
         }
 
         neighbors_indices_type& get_storage(const std::size_t& /*idx*/)
         {
-            return m_node_neighbors;
+            return storage();
         }
 
         void store(const std::size_t& /*idx*/, const neighbors_indices_type neighbors_indices)
         {
-            m_node_neighbors = neighbors_indices;
+            storage() = neighbors_indices;
         }
 
         std::size_t cache_size() const
@@ -256,7 +256,14 @@ namespace fastscapelib
         }
 
     protected:
-        neighbors_indices_type m_node_neighbors;
+        // temporary storage of the neighbors of the last visited node: one per
+        // thread, since neighbors may be looked up from several threads at once
+        // (e.g., multi-threaded flow routing)
+        static neighbors_indices_type& storage()
+        {
+            static thread_local neighbors_indices_type node_neighbors;
+            return node_neighbors;
+        }
     };
 
     //****************
